@@ -2,6 +2,7 @@
 
 FAMILIES = {
     "vec": {"src": "scen/vec.cpp", "parts": 4},
+    "str": {"src": "scen/str.cpp", "parts": 5},
 }
 
 SAN = ["-O1", "-g1", "-fsanitize=address,undefined", "-fno-sanitize-recover=undefined", "-fno-omit-frame-pointer"]
@@ -35,8 +36,20 @@ PROPS = {
         "quick": {"flavours": ["chk-O2"], "runs": 400000, "max_seconds": 40},
         "thorough": {"flavours": ["chk-O2", "chk-asan", "off-asan", "chk-O0"], "runs": 12000000, "max_seconds": 240},
     },
+    "C04": {
+        "families": ["str"],
+        "level": "exploration",
+        "rule": "one run = one seeded plan over a pool of 1-3 basic_inplace_string objects of one (character type, capacity) "
+                "scenario; every mutator and observer overload is applied through the same generic code to the real string and to "
+                "std::basic_string; the std result on a trial copy decides validity (throws -> skipped, longer than the capacity -> "
+                "clamp/refusal clause) and the expected state; size<=capacity and data()[size()]==0 are checked after every step. "
+                "Non-trivial and distinct as for C01",
+        "assumptions": COMMON_ASSUME,
+        "quick": {"flavours": ["chk-O2"], "runs": 400000, "max_seconds": 40},
+        "thorough": {"flavours": ["chk-O2", "chk-asan", "off-asan", "chk-O0"], "runs": 12000000, "max_seconds": 240},
+    },
     "C02": {
-        "families": ["vec"],
+        "families": ["vec", "str"],
         "level": "exploration",
         "rule": "one run = one seeded plan of valid (and capacity-refusal) steps executed twice under two different garbage "
                 "patterns in the arena, under ASan+UBSan, with guard zones, exact-size heap argument buffers and the allocator "
@@ -56,7 +69,7 @@ PROPS = {
         "thorough": {"flavours": ["chk-O2", "chk-asan", "off-asan", "chk-O0"], "runs": 12000000, "max_seconds": 240},
     },
     "C05": {
-        "families": ["vec"],
+        "families": ["vec", "str"],
         "level": "fault_enumeration",
         "rule": "misuse faults (a precondition-violating call at the boundary, boundary+1 and max) are attached to seeded steps "
                 "of container histories; the replaced handler must be entered with a location before any damage and, for "
@@ -97,6 +110,17 @@ MANIFEST_TEXT = {
         "note": "Element special members do not throw (the library is built without exceptions); a moved-from owner is only required to "
                 "be assignable, clearable and destructible.",
         "ref": "DESIGN.md section 3 C03",
+    },
+    "C04": {
+        "text": "Seeded history simulation of basic_inplace_string for char, wchar_t, char8_t, char16_t, char32_t and capacities "
+                "1,7,15 (size in the last element) and 16,31,255,256 against std::basic_string: every mutator and search/compare "
+                "overload (with and without defaulted arguments, with pointer, view, string and self arguments) runs through the same "
+                "generic code on both sides; capacity-clamping appends, trapped overflows, self-aliasing arguments and dirty-memory "
+                "creation are injected; size()<=capacity() and data()[size()]==0 are checked after every step including after faults.",
+        "note": "Trusts libstdc++ std::basic_string. Operations whose std result does not fit the capacity are outside the property "
+                "except the documented clamping appends. Two test-pinned deviations (replace overwrite semantics, default pos of the "
+                "reverse searches) are open known findings with executable defect models.",
+        "ref": "DESIGN.md section 3 C04",
     },
     "C05": {
         "text": "A catalogue of precondition-violating calls (at the boundary, +1, max) is injected at seeded points of container "
